@@ -144,11 +144,31 @@ class Harness:
         return w
 
 
+class Rec:
+    """What is kept of an execution (picklable: explorations run in forked children)."""
+
+    def __init__(self, w):
+        self.events = [dict(e) for e in w.events]
+        self.outcome = w.outcome
+        self.schedule = list(w.schedule)
+        self.blocked = getattr(w, "blocked", None)
+        self.steps = w.steps
+        exc = next((t.exc for t in w.tasks if t.name == "main" and t.exc is not None), None)
+        self.main_exc = None if exc is None else repr(exc)[:200]
+        self.any_exc = next((repr(t.exc)[:200] for t in w.tasks if t.exc is not None), None)
+        self.alive_procs = sum(1 for t in w.tasks if t.name.startswith("P") and not t.done)
+
+
+def summarize(w):
+    return w if isinstance(w, Rec) else Rec(w)
+
+
 def to_trace(w):
     """observer events of an execution -> trace for PoolObs (events that are not scheduling points are totally
     ordered by the scheduler, one task runs at a time)."""
+    w = summarize(w)
     evs = [dict(e) for e in w.events]
-    main_exc = next((t.exc for t in w.tasks if t.name == "main" and t.exc is not None), None)
+    main_exc = w.main_exc
     left = any(e["op"] == "exit" for e in evs)
     if w.outcome != "ok" and not left:
         evs.append({"op": "hang"})
@@ -156,7 +176,7 @@ def to_trace(w):
         # the context was left but some task never finishes: report the processes still running
         for e in evs:
             if e["op"] == "exit":
-                e["alive"] = max(e["alive"], sum(1 for t in w.tasks if t.name.startswith("P") and not t.done))
+                e["alive"] = max(e["alive"], w.alive_procs)
     tr = []
     phase, calls, got = "init", 0, 0
     for e in evs:
@@ -236,6 +256,7 @@ def judge_worlds(worlds, scens, ctx, name, pid_sig=None):
     """Validate the observer traces with TLC; report rejections. worlds/scens are parallel lists."""
     traces, keep = [], []
     for w, scen in zip(worlds, scens):
+        w = summarize(w)
         tr, main_exc = to_trace(w)
         if main_exc is not None and not any(e["op"]["op"] == "fault" for e in tr):
             # the consumer saw an exception: the call did not return its results
@@ -262,7 +283,7 @@ def judge_worlds(worlds, scens, ctx, name, pid_sig=None):
             desc = ("%s: scenario %s: the execution under schedule of %d steps is rejected by the observer specification at event %d %s "
                     "(outcome %s%s%s)" % (name, json.dumps(scen, sort_keys=True), len(w.schedule), matched, json.dumps(ev), w.outcome,
                                           ", blocked " + json.dumps(getattr(w, "blocked", None)) if w.outcome == "deadlock" else "",
-                                          ", consumer raised %r" % (main_exc,) if main_exc is not None else ""))
+                                          ", consumer raised %s" % (main_exc,) if main_exc is not None else ""))
             ctx.violation(sig, desc, {"engine": "simworld", "scenario": scen, "schedule": w.schedule,
                                       "events": [t["op"] for t in tr][:200], "rejected_at": matched})
     return bad
@@ -308,3 +329,34 @@ def real_leg(ctx, judge, name, quick, rnd):
                               name, json.dumps(s, sort_keys=True), matched, json.dumps(ev), "" if fin else " (watchdog expired twice)"),
                           {"engine": "realrun", "scenario": s, "events": [t["op"] for t in tr][:300], "rejected_at": matched})
     ctx.extra["real_process_executions"] = {"count": len(traces), "seconds": round(sum(m[2] for m in meta), 1)}
+
+
+_PAR = {}
+
+
+def _explore_one(i):
+    h, scens, seed, budget, kw = _PAR["args"]
+    import random as _r
+
+    class _C:                     # minimal stand-in for the context inside the child
+        extra = {}
+    c = _C()
+    c.extra = {}
+    rnd = _r.Random(seed * 1000003 + i)
+    out = [Rec(w) for w in explore(h, scens[i], rnd, budget, c, **kw)]
+    return out, c.extra.get("exploration", [])
+
+
+def explore_all(h, scens, seed, budget, ctx, procs=None, **kw):
+    """Explore every scenario in its own forked child (the scenarios are independent); returns (records, scenarios)."""
+    import multiprocessing
+    _PAR["args"] = (h, scens, seed, budget, kw)
+    procs = procs or min(len(scens), os.cpu_count() or 4)
+    with multiprocessing.get_context("fork").Pool(procs) as pool:
+        results = pool.map(_explore_one, range(len(scens)), chunksize=1)
+    recs, ws = [], []
+    for s, (rs, info) in zip(scens, results):
+        recs += rs
+        ws += [s] * len(rs)
+        ctx.extra.setdefault("exploration", []).extend(info)
+    return recs, ws
